@@ -624,6 +624,9 @@ func checkHistory(ctx *pbt.Ctx, c HistCase) error {
 		return nil
 	}
 	ctx.Labelf("steps=%d", len(c.Ops))
+	if sh := gen.C10OutpointShape(s.m.In); sh != "" {
+		ctx.Label("start:" + sh)
+	}
 	prev, prevEst, err := s.hAnswers(c.Q0)
 	if err != nil {
 		return fmt.Errorf("before the first edit: %v", err)
@@ -753,9 +756,15 @@ func hKinds(ops []HOp) string {
 // generator
 
 func genHScript(t *rapid.T, label string) pbt.Hex {
-	switch rapid.IntRange(0, 6).Draw(t, label+"_k") {
+	switch rapid.IntRange(0, 7).Draw(t, label+"_k") {
 	case 0:
 		return ref.FeeP2PKH(gen.Bytes(t, 20, label+"_h"))
+	case 7: // data output whose payload is pushes starting with opcode-valued bytes
+		pre := pbt.Hex{0x00, 0x6a}
+		if rapid.IntRange(0, 3).Draw(t, label+"_bare_return") == 0 {
+			pre = pbt.Hex{0x6a}
+		}
+		return append(pre, gen.C10DataPayload(t, label+"_tpl")...)
 	case 1:
 		return append(pbt.Hex{0x6a}, gen.FillBytes(t, gen.EdgeLen(t, 300, label+"_dl", 0, 1, 75, 76, 250, 251, 252, 253), label+"_p")...)
 	case 2:
@@ -839,6 +848,9 @@ func genHOp(t *rapid.T, nin, nout int) HOp {
 		op.N = []int{0, 1, 2, 3}[rapid.IntRange(0, 3).Draw(t, "keyform")]
 	case "addin":
 		op.B = gen.Bytes(t, 32, "txid")
+		if rapid.IntRange(0, 9).Draw(t, "null_txid") == 4 { // all-zero previous txid (From gives the final sequence)
+			op.B = make(pbt.Hex, 32)
+		}
 		op.N = int(gen.U32(t, "vout") & 0x7fffffff)
 		op.U64 = rapid.Uint64Range(0, 3000000).Draw(t, "isats")
 		switch rapid.IntRange(0, 7).Draw(t, "pk") {
@@ -910,6 +922,8 @@ func genHistCase(t *rapid.T) HistCase {
 		}
 		c.Tx.In = append(c.Tx.In, in)
 	}
+	c.Tx.In = gen.C10SpecialOutpoints(t, c.Tx.In)
+	nin = len(c.Tx.In)
 	nout := rapid.IntRange(0, 4).Draw(t, "nout")
 	for i := 0; i < nout; i++ {
 		c.Tx.Out = append(c.Tx.Out, ref.Out{Sats: rapid.Uint64Range(0, 5000).Draw(t, "osats"), Script: genHScript(t, "out")})
